@@ -885,9 +885,40 @@ func (c *FnCtx) evCall(x *eCall, env *evalEnv) *Val {
 			if len(x.args) != 2 {
 				c.efail("%s(L, expr)", id.name)
 			}
+			if id.name == "athead" {
+				// a bare local with a phi at the loop head: its value at the start of the iteration
+				if lv, ok := x.args[1].(*eIdent); ok {
+					for _, ins := range target.header.Instrs {
+						if phi, ok := ins.(*ssa.Phi); ok && phi.Comment == lv.name {
+							if r, ok := c.regs[phi]; ok {
+								return r
+							}
+						}
+					}
+				}
+			}
 			n := *env
 			n.st = snap
 			return c.ev(x.args[1], &n)
+		case "atback":
+			// atback(x): the value of local x flowing back into the head of the loop whose
+			// body clause is being checked (x has a phi at that head) -- "x at the end of
+			// this iteration"
+			lv, ok := x.args[0].(*eIdent)
+			if len(x.args) != 1 || !ok || c.curLoop == nil || c.backFrom == nil {
+				c.efail("atback(x): only for a local variable, in a `loop L body` clause")
+			}
+			for _, ins := range c.curLoop.header.Instrs {
+				if phi, ok := ins.(*ssa.Phi); ok && phi.Comment == lv.name {
+					for i, p := range c.curLoop.header.Preds {
+						if p == c.backFrom {
+							return c.val(c.state(env), phi.Edges[i])
+						}
+					}
+				}
+			}
+			c.efail("atback(%s): no phi of that name at the loop head", lv.name)
+			return nil
 		case "iter":
 			var target *loopInfo
 			switch a := x.args[0].(type) {
